@@ -14,6 +14,9 @@ MERCHANTS = [
     dict(name='Cafe', cat='Food', sub='Coffee', tags=[], pays=[(D(2025, 1, 3), 4.5), (D(2025, 1, 3), 5.5), (D(2025, 1, 4), 6.0)]),
     dict(name='Moves', cat='Transfers', sub='', tags=['TRANSFER'], pays=[(D(2025, 1, 8), 500.0)]),
     dict(name='Flat', cat='Bills', sub='Power', tags=[], pays=[(D(2025, 1, 9), 50.0), (D(2025, 2, 9), 150.0)]),
+    # tags differ from payment to payment (a tag-only rule fired on one of them): `tags` is the union over the payments
+    dict(name='Gadget', cat='Shopping', sub='Tech', tags=['big'], paytags=[[], ['Big'], []],
+         pays=[(D(2025, 1, 11), 20.0), (D(2025, 1, 25), 700.0), (D(2025, 2, 11), 25.0)]),
     # identical monthly totals that are not binary fractions (cv is exactly 0)
     dict(name='Cloud', cat='Bills', sub='Streaming', tags=[],
          pays=[(D(2024, 12, 7), 0.1), (D(2025, 1, 7), 0.1), (D(2025, 2, 7), 0.1)]),
